@@ -63,6 +63,8 @@ def node_ids(mod, t, v, syn, out, depth=0):
             root, ext = C.general_set(specs)
             vc = "in" if root.contains(v) else "out"
             lb, ub = root.lb(), root.ub()
+            if vc == "out" and v < 0 and lb is not None and lb >= 0 and (ub is None or ub > 2147483647):
+                vc = "outnegu"      # asn1c keeps this type in an unsigned long: a negative extension value does not fit
             cc += _width(lb, ub)
             if lb is not None and lb < 0:
                 cc += "-neg"
